@@ -35,3 +35,9 @@ polls = itertools.count(); RPCHandler.get_job_status = status
 g = JobGroup("d"); g.add(RemoteJob({"payload": {}}, H, "n"))
 try: g.run_sequential(0)
 except requests.HTTPError: print("   run_sequential raised; memory:", g[0]._job_status.status.name, " re-opened:", JobGroup("d")[0]._job_status.status.name)
+
+print("(e) get_results: second refresh of an UNKNOWN job is not written")
+answers = iter(["weird", "weird", "completed"]); RPCHandler.get_job_status = lambda self, i: st(next(answers))
+RPCHandler.get_job_results = lambda self, i: {"results": None}
+g = JobGroup("e"); g.add(RemoteJob({"payload": {}}, H, "n")); g.run_parallel(); g.progress(); g.get_results()
+print("   memory:", g[0]._job_status.status.name, " re-opened:", JobGroup("e")[0]._job_status.status.name)
